@@ -70,6 +70,16 @@ CHECKS = {
             "State hidden outside the digest is only observable through result changes; small fixed inputs per "
             "descriptor.",
             "explicit-state exploration of call histories with a heap-digest invariant"),
+    "C03": (MC, "DESIGN.md §5 C03",
+            "For each of 13 task modules a panel of input states (empty sides, singletons, span mismatches, "
+            "non-trivial pairs) x every subset of size <=2 (thorough <=3) of the keyword parameters of the "
+            "underlying functions plus an unrelated keyword is run through evaluate() and compared - key set, "
+            "order, scalar type, bit-identical values - with a bundle table that calls the public metric and "
+            "pre-processing functions directly with the documented forced parameters. Exhaustive over the "
+            "stated panel x keyword-subset space.",
+            "Panel inputs are hand-chosen (each forced parameter changes the score on at least one of them); "
+            "forwarding decided by inspect.signature; separation.evaluate (lists per source) is out of scope.",
+            "bounded exhaustive enumeration of configurations (keyword subsets) against a bundle reference model"),
 }
 
 NOT_YET = {}
